@@ -236,6 +236,9 @@ pub struct Exec {
     pub last_emitted: Vec<usize>,
     /// snapshot of each side after the last op that addressed it (= before the next one)
     cache: [Option<VerifTcbSnapshot>; 2],
+    /// C03: when set, every answer carries the transition log (` | tr from>to ok`) and the C03
+    /// per-op oracles run (`c03.rs`)
+    pub c03: Option<super::c03::C03State>,
 }
 
 thread_local! {
@@ -333,6 +336,7 @@ impl Exec {
             last: String::new(),
             last_emitted: vec![],
             cache: [None, None],
+            c03: None,
         }
     }
     pub fn side(&self, x: SideId) -> &Side {
@@ -421,6 +425,7 @@ impl Exec {
         let Some(x) = parse_side(w[1]) else { return bad(self, out) };
         let num = |s: &str| s.parse::<u64>().ok();
         let before = self.cache[x as usize].take();
+        let before_c03 = if self.c03.is_some() { before.clone() } else { None };
         let mut injected: Option<(TcpHeader, usize)> = None;
         let res: Result<String, PanicInfo> = match w.as_slice() {
             ["open", _, iss, mtu] => {
@@ -570,8 +575,16 @@ impl Exec {
                     out.count(&format!("state.{}", state_str(s.state)));
                 }
                 self.last = r.clone();
-                out.line(line, &format!("{} | {} {}", r, x.name(), self.side_str(x)));
+                let (suffix, tr_ok) = if self.c03.is_some() {
+                    super::c03::transition(&w, before_c03.as_ref(), self.snap_ref(x), injected.as_ref().map(|i| &i.0))
+                } else {
+                    (String::new(), true)
+                };
+                out.line(line, &format!("{} | {} {}{}", r, x.name(), self.side_str(x), suffix));
                 self.check_oracles(x, &w, before, injected, out);
+                if self.c03.is_some() {
+                    super::c03::after_op(self, x, &w, before_c03, injected.map(|i| i.0), tr_ok, out);
+                }
             }
             Err(p) => {
                 let (model, func) = panic_site(&p);
